@@ -103,7 +103,32 @@ ClausesRaw(e) ==
             THEN {"C12.HashConsistent"} ELSE {})
       \cup (IF ok(e.hash_old) /\ ~ok(e.hash_x) THEN {"C12.HashTotal"} ELSE {})
 
-Verdicts(e) == IF e.op = "raw" THEN (IF ShapeRaw(e) # "" THEN {ShapeRaw(e)} ELSE ClausesRaw(e))
+(* ---- observed dimension (op = "obs"): queries run on x only / on x and its twin y ---- *)
+(*   [cls, x, who, queries (names run), ctl (x == y before any query),                                          *)
+(*    eq_xy, eq_yx, ne_xy (after the queries), eq_xc0, eq_c0x (deep copy taken before), eq_xc1, eq_c1x (after), *)
+(*    hash_x, hash_y, heq_y, heq_c0, heq_c1 (hash(x) equals hash(y) / of the copies), sig "<Class>.observed:<who>"] *)
+ShapeObs(e) ==
+  IF e.cls \notin Classes THEN "machinery/unknown-class"
+  ELSE IF ~IsValuation(e.cls, e.x) THEN "machinery/bad-valuation"
+  ELSE IF e.who \notin Observers THEN "machinery/unknown-observer"
+  ELSE IF ~(Range(e.queries) \subseteq Queries(e.cls, 0)) THEN "machinery/unknown-query"
+  ELSE IF {e.ctl, e.eq_xy, e.eq_yx, e.ne_xy, e.eq_xc0, e.eq_c0x, e.eq_xc1, e.eq_c1x} \subseteq 0..2
+          /\ {e.heq_y, e.heq_c0, e.heq_c1} \subseteq 0..1 THEN ""
+  ELSE "machinery/bad-field"
+ClausesObs(e) ==
+  LET eqs == {e.eq_xy, e.eq_yx, e.eq_xc0, e.eq_c0x, e.eq_xc1, e.eq_c1x}
+      hok == e.hash_x = "ok" /\ e.hash_y = "ok"
+  IN  IF e.ctl # 1 THEN {}                \* unequal before any query: reported by the node tests, not a query effect
+      ELSE (IF 2 \in eqs \cup {e.ne_xy} THEN {"C12.Observed/raises"} ELSE {})
+      \cup (IF e.eq_xy = 0 \/ e.eq_yx = 0 THEN {"C12.Observed/ne-fresh"} ELSE {})
+      \cup (IF 0 \in {e.eq_xc0, e.eq_c0x, e.eq_xc1, e.eq_c1x} THEN {"C12.Observed/copy"} ELSE {})
+      \cup (IF e.eq_xy # e.eq_yx \/ e.eq_xc0 # e.eq_c0x \/ e.eq_xc1 # e.eq_c1x THEN {"C12.Symmetric"} ELSE {})
+      \cup (IF e.eq_xy \in 0..1 /\ e.ne_xy \in 0..1 /\ e.ne_xy # 1 - e.eq_xy THEN {"C12.NeConsistent"} ELSE {})
+      \cup (IF hok /\ (e.heq_y # 1 \/ e.heq_c0 # 1 \/ e.heq_c1 # 1) THEN {"C12.Observed/hash"} ELSE {})
+      \cup (IF e.hash_y = "ok" /\ e.hash_x # "ok" THEN {"C12.HashTotal"} ELSE {})
+
+Verdicts(e) == IF e.op = "obs" THEN (IF ShapeObs(e) # "" THEN {ShapeObs(e)} ELSE ClausesObs(e))
+               ELSE IF e.op = "raw" THEN (IF ShapeRaw(e) # "" THEN {ShapeRaw(e)} ELSE ClausesRaw(e))
                ELSE IF e.op = "mut" THEN (IF ShapeMut(e) # "" THEN {ShapeMut(e)} ELSE ClausesMut(e))
                ELSE IF Shape(e) # "" THEN {Shape(e)} ELSE Clauses(e)
 
